@@ -21,11 +21,11 @@ OUTSIDE = "pennylane and qutip exporters (libraries absent); the third-party mea
 ASSUMPTIONS = ["re-import readers: qiskit circuit.data/find_bit, cirq decompose_once on LineQubits, sympy Mul.args reversed, a 60-line OpenQASM parser binding formal k to actual k", "engine D gate table; phases are compared exactly (QASM: as printed)"]
 
 KINDS = {
-    "qiskit": ["x", "y", "z", "h", "s", "t", "cx", "ccx", "cz", "cp", "swap", "mcx3", "mcz", "barrier"],
-    "cirq": ["x", "y", "z", "h", "s", "t", "cx", "ccx", "cz", "cp", "swap", "mcx3", "mcz"],
+    "qiskit": ["x", "y", "z", "h", "s", "t", "cx", "ccx", "cz", "cp", "swap", "mcx3", "mcz", "mczv", "mcxv", "barrier"],
+    "cirq": ["x", "y", "z", "h", "s", "t", "cx", "ccx", "cz", "cp", "swap", "mcx3", "mcz", "mczv", "mcxv"],
     "sympy": ["x", "h", "cx", "ccx", "swap", "mcx3", "barrier"],
-    "qasm2": ["x", "y", "z", "h", "s", "t", "cx", "ccx", "cz", "cp", "swap", "mcx3", "mcz", "barrier"],
-    "qasm3": ["x", "y", "z", "h", "s", "t", "cx", "ccx", "cz", "cp", "swap", "mcx3", "mcz", "barrier"],
+    "qasm2": ["x", "y", "z", "h", "s", "t", "cx", "ccx", "cz", "cp", "swap", "mcx3", "mcz", "mczv", "mcxv", "barrier"],
+    "qasm3": ["x", "y", "z", "h", "s", "t", "cx", "ccx", "cz", "cp", "swap", "mcx3", "mcz", "mczv", "mcxv", "barrier"],
 }
 
 
@@ -254,11 +254,14 @@ def make_items(tier, seed):
     n = 500 if tier == "thorough" else 120
     items = []
     for fw, kinds in KINDS.items():
-        rc = circorp.fixed_random(n, 99 + len(fw), nq_choices=(2, 3, 4, 5), length=(0, 9), kinds=[k for k in kinds for _ in (range(3) if k in ("cx", "ccx", "cp", "mcx3", "mcz") else range(1))])
+        rc = circorp.fixed_random(n, 99 + len(fw), nq_choices=(2, 3, 4, 5), length=(0, 9), kinds=[k for k in kinds for _ in (range(3) if k in ("cx", "ccx", "cp", "mcx3", "mcz", "mczv", "mcxv") else range(1))])
         for i in range(0, len(rc), 20):
             for mode in ("circuit", "gate"):
                 items.append({"fw": fw, "mode": mode, "circuits": rc[i : i + 20]})
     items.append({"fw": "cirq", "mode": "circuit", "circuits": [{"nq": 2, "gates": [["x", [0]], ["barrier", []], ["cx", [0, 1]]]}]})
+    for fw in ("qasm2", "qasm3", "qiskit", "cirq", "sympy"):
+        for mode in ("circuit", "gate") if fw != "sympy" else ("circuit",):
+            items.append({"fw": fw, "mode": mode, "circuits": [h for h in HIST if fw != "sympy" or all(g[0] in ("x", "cx", "ccx", "h") for g in h["gates"] + h.get("then", []))], "fam": "history"})
     for fw in ("qasm2", "qasm3"):
         items.append({"fw": fw, "mode": "circuit", "ob": "phase-format"})
     from .. import corpus
@@ -287,6 +290,44 @@ def make_items(tier, seed):
     for i in range(0, len(wide), 6):
         items.append({"fw": "qasm3", "mode": "circuit", "progs": wide[i : i + 6], "opt": "fast" if (i // 6) % 2 else "default"})
     return items
+
+
+def build_hist(c, fw, mode):
+    """a circuit reached through a short history: optional qubit names ([name, index] pairs applied
+    with qc[name] = index, which may leave a qubit without a name of its own), and optionally an
+    export in between followed by more renames/gates (the export judged is that of the final state)"""
+    qc = circorp.build(c["gates"], c["nq"], "qc")
+    for nm, i in c.get("names", []):
+        qc[nm] = i
+    if "then" in c or "then_names" in c:
+        try:
+            export(qc, fw, mode)
+        except Exception:
+            pass
+        for nm, i in c.get("then_names", []):
+            qc[nm] = i
+        more = circorp.build(c.get("then", []), c["nq"], "qc")
+        for g, w, p in more.gates:
+            qc.append(g, list(w), p)
+    return qc
+
+
+HIST = [
+    # names that collide with the fallback spelling of a nameless qubit
+    {"nq": 4, "gates": [["x", [3]], ["ccx", [0, 3, 2]], ["cx", [1, 3]]], "names": [["q3", 1]]},
+    {"nq": 4, "gates": [["h", [2]], ["cx", [2, 3]], ["cx", [3, 0]]], "names": [["q3", 0], ["q2", 3]]},
+    {"nq": 3, "gates": [["x", [0]], ["cx", [0, 2]], ["cx", [2, 1]]], "names": [["q2", 0], ["_q2", 1]]},
+    {"nq": 3, "gates": [["cx", [0, 1]], ["ccx", [0, 1, 2]]], "names": [["a", 0], ["a", 1], ["b", 2]]},
+    # export, then rename / extend, then export again
+    {"nq": 3, "gates": [["x", [0]], ["cx", [0, 1]]], "then": [["cx", [1, 2]], ["h", [0]]]},
+    {"nq": 3, "gates": [["x", [0]], ["cx", [0, 1]]], "names": [["a", 0], ["b", 1], ["c", 2]], "then_names": [["a", 1]], "then": [["cx", [0, 1]], ["cx", [1, 2]]]},
+    {"nq": 4, "gates": [["cx", [0, 1]], ["ccx", [0, 1, 2]]], "names": [["a", 0], ["b", 1], ["c", 2], ["d", 3]], "then_names": [["d", 0], ["a", 3]], "then": [["cx", [0, 3]], ["x", [3]], ["ccx", [3, 0, 1]]]},
+    {"nq": 3, "gates": [["h", [0]], ["cx", [0, 1]]], "then_names": [["q0", 2], ["q2", 0]], "then": [["cx", [2, 0]], ["x", [2]]]},
+    # the newest name moves to an older qubit (what a re-assignment of the last variable does)
+    {"nq": 3, "gates": [["h", [0]], ["cx", [0, 1]], ["ccx", [0, 1, 2]]], "names": [["b", 0], ["a", 1], ["c", 2]], "then_names": [["c", 0]], "then": [["x", [2]], ["cx", [2, 0]]]},
+    {"nq": 4, "gates": [["cx", [0, 3]], ["ccx", [0, 1, 2]]], "names": [["a", 0], ["b", 1], ["c", 2], ["d", 3]], "then_names": [["d", 1]], "then": [["cx", [3, 1]], ["x", [3]]]},
+    {"nq": 3, "gates": [["x", [1]], ["cx", [1, 2]]], "then_names": [["q2", 1]], "then": [["cx", [2, 1]], ["x", [2]]]},
+]
 
 
 def export(qc, fw, mode):
@@ -412,7 +453,7 @@ def check_item(spec):
             except Exception:
                 continue
     else:
-        circs = [(circorp.show(c["gates"]), circorp.build(c["gates"], c["nq"], "qc")) for c in spec["circuits"]]
+        circs = [(circorp.show(c["gates"]) + (" names=%s" % c["names"] if c.get("names") else "") + (" then " + circorp.show(c["then"]) if c.get("then") else ""), build_hist(c, fw, mode)) for c in spec["circuits"]]
     for label, qc in circs:
         n += 1
         for kind, what in judge(label, qc, fw, mode, st, solver):
